@@ -446,3 +446,41 @@ func extJSONEncode(fr *frame, args []value) value {
 	}
 	return nilErr()
 }
+
+// extCreateTemp: os.CreateTemp(dir, pattern). The random part of the name is a per-path counter
+// (names differ from a native run's, which nothing may depend on); dir "" is "/tmp".
+func extCreateTemp(fr *frame, args []value) value {
+	i := fr.i
+	i.yield()
+	fs := i.path.fs
+	nilFile := (*value)(nil)
+	if i.fsFault("createtemp") {
+		return tuple{nilFile, i.fsErr("createtemp", args[0])}
+	}
+	dir, ok1 := args[0].(string)
+	pat, ok2 := args[1].(string)
+	if !ok1 || !ok2 {
+		i.abort("os.CreateTemp with symbolic arguments")
+	}
+	if dir == "" {
+		dir = "/tmp"
+		fs.mkdirAll(dir)
+	}
+	dir = fs.canon(dir)
+	if !fs.dirs[dir] {
+		return tuple{nilFile, i.fsErr("open (no such file or directory)", args[0])}
+	}
+	n, _ := i.path.extra["createtemp"].(int)
+	i.path.extra["createtemp"] = n + 1
+	rnd := fmt.Sprintf("%09d", 100000007+n)
+	name := pat + rnd
+	if k := strings.LastIndex(pat, "*"); k >= 0 {
+		name = pat[:k] + rnd + pat[k+1:]
+	}
+	node := fs.create(dir, name)
+	full := dir + "/" + name
+	of := &openFile{node: node, rd: true, wr: true, path: full}
+	return tuple{i.newFileHandle(of), nilErr()}
+}
+
+func init() { externals["os.CreateTemp"] = extCreateTemp }
